@@ -9,6 +9,8 @@ from __future__ import annotations
 
 from typing import Any, Dict, List
 
+import os
+
 import z3
 
 REC: Dict[int, Any] = {}      # decl id -> (decl, params, body, twin)
@@ -38,6 +40,8 @@ _ABS_CACHE: Dict[Any, Any] = {}
 def abstract(t):
     if not REC:
         return t
+    if os.environ.get('VERIF_NO_ABS_CACHE'):
+        return _abstract(t)
     key = (t.get_id(), len(REC))
     hit = _ABS_CACHE.get(key)
     if hit is not None and hit[0].eq(t):
@@ -220,12 +224,12 @@ def fuel(terms, depth, limit=150, goal=None, hyp_depth=None, hyp_limit=80):
     return insts
 
 
-def bool_simplify(t):
+def bool_simplify(t, sort_args=True):
     """light propositional normalisation (no theory rewriting): singleton And/Or, constants, double negation"""
     if not z3.is_app(t) or not z3.is_bool(t):
         return t
     if z3.is_not(t):
-        a = bool_simplify(t.arg(0))
+        a = bool_simplify(t.arg(0), sort_args)
         if z3.is_not(a):
             return a.arg(0)
         if z3.is_true(a):
@@ -238,7 +242,7 @@ def bool_simplify(t):
         out = []
         seen = set()
         for c in t.children():
-            c = bool_simplify(c)
+            c = bool_simplify(c, sort_args)
             if z3.is_true(c):
                 if is_and:
                     continue
@@ -260,6 +264,7 @@ def bool_simplify(t):
             return z3.BoolVal(is_and)
         if len(out) == 1:
             return out[0]
-        out.sort(key=lambda c: c.sexpr())      # canonical argument order (And/Or are commutative)
+        if sort_args:
+            out.sort(key=lambda c: c.sexpr())      # canonical argument order (And/Or are commutative)
         return z3.And(*out) if is_and else z3.Or(*out)
     return t
